@@ -683,7 +683,19 @@ def run_case(prop, case):
         c2["searches"] = 1
         ref0 = _run_once(ctg, c2, False, False, log, C(), C(), False)
         r0 = ref0["results"][0]
-        if r0["raised"] is not None:
+        if r0["raised"] is not None and case["on_trial_error"] == "raise" and not (
+                isinstance(r0["raised"], KeyError) and r0["raised"].args == ("tree",)):
+            # on_trial_error='raise' asks for a trial's own exception to surface; is the request feasible at all, i.e.
+            # does the same fault-free serial search find a tree when failed trials are skipped?
+            c3 = copy.deepcopy(c2)
+            c3["on_trial_error"] = "ignore"
+            r1 = _run_once(ctg, c3, False, False, log, C(), C(), False)["results"][0]
+            if r1["raised"] is None:
+                counters["probe:own_trial_error_reraised_by_design"] += 1
+                r0 = None
+        if r0 is None:
+            pass
+        elif r0["raised"] is not None:
             e = r0["raised"]
             V("search-raised", f"search raised {type(e).__name__}: {e} even serially and without any injected fault "
               f"({len(r0['trace'])} trials executed); under simulation: executed={executed}, fault-injected={ninj}; "
